@@ -16,7 +16,12 @@
 #ifndef GS_LMAX
 #define GS_LMAX 10
 #endif
+#ifndef GS_KMAX
 #define GS_KMAX 1
+#endif
+#ifndef LIT_CAP
+#define LIT_CAP 256
+#endif
 #define GS_SPL 4
 #define GS_NO_TABLES
 #define GS_ABS_ONLY
@@ -66,7 +71,7 @@ rec_error(const struct location *loc)
 #define PRE(X) \
 	X(s != 0 && s->file == ghost_file()) \
 	X(g_in_n <= G_IN_MAX && g_m <= GS_LMAX && gs_canonical()) \
-	X(g_P <= 2 && s->usebuf == (g_P > 0) && s->buf.len == g_P && BUF_OK(&s->buf) && s->buf.cap >= 256) \
+	X(g_P <= 2 && s->usebuf == (g_P > 0) && s->buf.len == g_P && BUF_OK(&s->buf) && s->buf.cap >= LIT_CAP) \
 	X(AT(s, 0) && g_li == 0 && g_L[0] == LIT_Q && SYNC_ABS(s)) \
 	X(g_saw0 == s->sawspace && g_file0 == s->loc.file && g_j < GS_LMAX && g_err_calls == 0) \
 	X(LIT_SELECT)
@@ -113,7 +118,10 @@ lit_setup(u64 c0, u64 c1, size_t m, u64 splices, size_t line, size_t col, bool s
 	gs_build(m);
 	g_pl0 = line; g_pc0 = col;
 	gs_abs_tables();
-	s = gs_scanner_at0(saw, true, false, g_pl0, g_pc0);
+	s = gs_scanner_at0(saw, false, false, g_pl0, g_pc0);
+	s->buf.cap = LIT_CAP;
+	s->buf.str = malloc(LIT_CAP);
+	__CPROVER_assume(s->buf.str != 0);
 	g_P = pfx;
 	if (pfx >= 1) {
 		s->usebuf = true;
